@@ -126,6 +126,8 @@ def try_get_or_intern : Nat := 235
 def get_or_intern : Nat := 236
 def try_resolve : Nat := 237
 def resolve : Nat := 238
+def data : Nat := 239
+def resolver : Nat := 240
 def get : Nat := 229
 def checked_sub : Nat := 230
 def token : Nat := 231
@@ -133,6 +135,9 @@ def node : Nat := 232
 def intern : Nat := 233
 def into_owned : Nat := 234
 -- fields
+def field.text : Nat := 613
+def field.kind : Nat := 614
+def field.text_len : Nat := 615
 def field.parent_idx : Nat := 610
 def field.child_idx : Nat := 611
 def field.interner : Nat := 612
